@@ -691,8 +691,22 @@ range_success: ;
 }
 
 
+__attribute_cold__
+static void http_response_backend_incomplete (request_st * const r) {
+	/* backend response is incomplete and response headers have not yet
+	 * been sent to client; send error instead of partial response
+	 * (response headers from backend are cleared by errdoc handling) */
+	http_response_body_clear(r, 0);
+	r->http_status = 502; /* Bad Gateway */
+	r->handler_module = NULL;
+}
+
 void http_response_backend_error (request_st * const r) {
-	if (r->resp_body_started) {
+	if (r->resp_body_started && 0 == r->resp_header_len) {
+		/*(response headers not yet sent)*/
+		http_response_backend_incomplete(r);
+	}
+	else if (r->resp_body_started) {
 		/*(response might have been already started, kill the connection)*/
 		/*(mode == DIRECT to avoid later call to http_response_backend_done())*/
 		r->handler_module = NULL;  /*(avoid sending final chunked block)*/
@@ -718,8 +732,18 @@ void http_response_backend_done (request_st * const r) {
 		__attribute_fallthrough__
 	case CON_STATE_WRITE:
 		if (!r->resp_body_finished) {
-			if (r->resp_body_scratchpad > 0)
-				r->keep_alive = 0; /*(less than Content-Length received)*/
+			if (r->resp_body_scratchpad > 0
+			    || (r->gw_dechunk && !r->gw_dechunk->done)) {
+				/* backend closed before end of response body
+				 * (less than Content-Length received or
+				 *  chunked body without last-chunk) */
+				if (0 == r->resp_header_len) {
+					/*(response headers not yet sent)*/
+					http_response_backend_incomplete(r);
+					break;
+				}
+				r->keep_alive = 0;
+			}
 			if (r->http_version == HTTP_VERSION_1_1)
 				http_chunk_close(r);
 		  #if 0
